@@ -21,14 +21,20 @@ FUEL = int(os.environ.get("VERIF_E5_FUEL", "600"))
 XLO, XHI = -3, 4
 RMAX = 1000
 
-ALL = e4_corpus.corpus(KIND, N, SEED, None)
+if KIND == "c32":
+    from lib import e4_syntax
+    ALL = e4_syntax.programs()
+    EXTRA, MODEXTRA = e4_syntax.EXTRA_ENV, e4_syntax.MODULE_EXTRA
+else:
+    ALL = e4_corpus.corpus(KIND, N, SEED, None)
+    EXTRA, MODEXTRA = None, ""
 SRCS = [ALL[i] for i in BATCH if i < len(ALL)]
 NB = len(SRCS)
 _dir = os.environ.get("VERIF_TWIN_DIR") or "/var/tmp"
 _tag = f"{BATCH[0]}-{BATCH[-1]}x{len(BATCH)}"
 _path = os.path.join(_dir, f"e5mod_{KIND}_{_tag}_{os.getpid()}.py")
 with open(_path, "w") as _f:
-    _f.write(e4_corpus.module_text(SRCS))
+    _f.write(e4_corpus.module_text(SRCS, MODEXTRA))
 _spec = importlib.util.spec_from_file_location(f"e5mod_{os.getpid()}", _path)
 MOD = importlib.util.module_from_spec(_spec)
 sys.modules[_spec.name] = MOD
@@ -43,6 +49,9 @@ for _src, _d in zip(SRCS, MOD.PROGRAMS):
     except GuppyError as _e:
         ENTRIES.append(None)
         VERDICT.append(("rejected", type(_e.error).__name__))
+    except Exception as _e:  # noqa: BLE001   (non-Guppy exception of the checker or an un-compilable source: not comparable)
+        ENTRIES.append(None)
+        VERDICT.append(("crashed", f"{type(_e).__name__}: {_e}"))
 UNSUPPORTED: dict = {}
 OUTSIDE: dict = {}
 LAST_DETAIL = None
@@ -106,7 +115,7 @@ def h_equiv5(which: int, x: int, y: int, r0: int, r1: int, r2: int, r3: int, r4:
             key = b[1].split(":")[0]
             OUTSIDE[key] = OUTSIDE.get(key, 0) + 1
         return True
-    a = e4.outcome(entry[0].run_native, (x, y), ra, None)
+    a = e4.outcome(entry[0].run_native, (x, y), ra, EXTRA)
     if a != b or ra.trace != rb.trace:
         with NoTracing():
             LAST_DETAIL = (f"program #{BATCH[k]} ({entry[0].name}): CPython {a} with events {ra.trace}; checked program {b} with events {rb.trace}\n{entry[0].src}")
